@@ -85,6 +85,16 @@ def residue_contract(rows, stack=False):
     spread = struc.spread_residue_wise(a, np.arange(len(exp_starts))).tolist()
     if spread != seg_of:
         return f"spread_residue_wise {spread} != {seg_of}"
+    # per-residue data with further dimensions is spread along the first axis
+    for shape in ((3,), (1,), (2, 2)):
+        per_res = np.arange(len(exp_starts) * int(np.prod(shape)), dtype=float).reshape((len(exp_starts),) + shape)
+        try:
+            sp = np.asarray(struc.spread_residue_wise(a, per_res))
+        except Exception as e:
+            return f"spread_residue_wise with per-residue data of shape {per_res.shape} raised {type(e).__name__}: {e}"
+        want = per_res[seg_of]
+        if sp.shape != want.shape or not np.array_equal(sp, want):
+            return f"spread_residue_wise with per-residue data of shape {per_res.shape} gives shape {sp.shape}, per-atom recomputation gives {want.shape}"
     parts = list(struc.residue_iter(a))
     if sum(p.array_length() for p in parts) != n or [p.atom_name[0] for p in parts] != [f"X{s}" for s in exp_starts]:
         return "residue_iter does not partition the array"
@@ -122,6 +132,10 @@ def chain_contract(rows, stack=False):
     spread = struc.spread_chain_wise(a, np.arange(len(exp))).tolist()
     if spread != seg_of:
         return f"spread_chain_wise {spread} != {seg_of}"
+    per_chain = np.arange(len(exp) * 3, dtype=float).reshape(len(exp), 3)
+    sp = np.asarray(struc.spread_chain_wise(a, per_chain))
+    if sp.shape != (n, 3) or not np.array_equal(sp, per_chain[seg_of]):
+        return f"spread_chain_wise with (n_chains, 3) data gives shape {sp.shape}"
     masks = struc.get_chain_masks(a, np.arange(n))
     for i in range(n):
         if masks[i].tolist() != [seg_of[j] == seg_of[i] for j in range(n)]:
